@@ -261,8 +261,10 @@ func genSlot(rt *rapid.T, label string) uint64 {
 	return rapid.Uint64().Draw(rt, label)
 }
 
-func genScript(rt *rapid.T, depth int) *NS {
-	leaf := depth <= 1 || rapid.IntRange(0, 2).Draw(rt, "leaf") == 0
+func genScript(rt *rapid.T, depth int) *NS { return genScriptAt(rt, depth, true) }
+
+func genScriptAt(rt *rapid.T, depth int, top bool) *NS {
+	leaf := depth <= 1 || (!top && rapid.IntRange(0, 2).Draw(rt, "leaf") == 0)
 	if leaf {
 		switch rapid.IntRange(0, 3).Draw(rt, "leafKind") {
 		case 0, 1:
@@ -276,7 +278,7 @@ func genScript(rt *rapid.T, depth int) *NS {
 	k := rapid.IntRange(0, 4).Draw(rt, "width")
 	s := &NS{Kind: NSKind(rapid.IntRange(1, 3).Draw(rt, "nodeKind"))}
 	for i := 0; i < k; i++ {
-		s.Subs = append(s.Subs, genScript(rt, depth-1))
+		s.Subs = append(s.Subs, genScriptAt(rt, depth-1, false))
 	}
 	if s.Kind == NSNofK {
 		s.N = uint64(rapid.IntRange(0, k+1).Draw(rt, "n"))
